@@ -101,7 +101,8 @@ type GenOpts struct {
 	ForceRename   bool
 	// WrapEdit adds a file larger than the differ's 4 MiB + 2 block buffer whose only edits sit
 	// exactly where that buffer wraps (block 66) - unchanged before, unchanged after.
-	WrapEdit bool
+	WrapEdit        bool
+	HeaderThenFresh bool // a new file = first block of an old file + a little more than 4 MiB of fresh data up to its end
 	// EmptyOld / EmptyNew: one side of the pair is a completely empty directory
 	EmptyOld, EmptyNew bool
 }
@@ -305,6 +306,14 @@ func GenPair(seed uint64, o GenOpts) *Pair {
 		p.Old.PutFile("wrap/big.bin", d)
 		p.New.PutFile("wrap/big.bin", nd)
 		p.feat("edit-at-differ-buffer-wrap")
+	}
+	if o.HeaderThenFresh {
+		h := RandomBytes(int64(r.Range(1, 3))*BS+int64(r.Intn(3000)), r.Uint64())
+		p.Old.PutFile("pack/header.bin", h)
+		p.New.PutFile("pack/header.bin", h)
+		nb := r.Range(1, len(h)/BS)
+		p.New.PutFile("pack/pack.bin", append(append([]byte(nil), h[:nb*BS]...), RandomBytes(int64(4*MB)+int64(r.PickInt([]int{1, 1000, BS / 2, BS - 1, BS, BS + 1})), r.Uint64())...))
+		p.feat("old-blocks-then-4MiB+-fresh-to-the-end")
 	}
 	// derive new from old
 	used := map[int]bool{}
@@ -726,7 +735,6 @@ func (g *genState) kindSwapN(which int, withRename bool) {
 		p.feat("kind:symlink->dir")
 	}
 }
-
 
 // OddDest spells a symlink destination in a way that is legal but not in its shortest form (half of the time):
 // wharf has to carry destinations verbatim.
